@@ -254,6 +254,25 @@ func (x *fx) contractCall(fc *FuncContract, key string, names []string, ptypes [
 		e.oblig("pre", name, props, x.curReach, tv.T, x.pos(ci.Pos()), c.Text)
 	}
 	pre := x.cur
+	if e.wfree && !fc.Pure {
+		wc := fc.WritesClause(e.profile)
+		if wc == nil {
+			wc = fc.Mod(e.profile)
+		}
+		if wc == nil {
+			e.oblig("write-target", "write-target:call:"+shortKey(key), e.writeProps, x.curReach, "false", x.pos(ci.Pos()), "call of "+key+" whose written objects are unknown")
+		} else {
+			for _, m := range wc.Exprs {
+				tv, err := env.eval(m)
+				if err != nil {
+					continue
+				}
+				for _, r := range refOf(tv) {
+					x.writeTarget(r, "call:"+shortKey(key), ci.Pos())
+				}
+			}
+		}
+	}
 	// effects
 	var eff *Effects
 	ec := e.effCtx()
@@ -438,6 +457,7 @@ func (x *fx) builtin(ci ssa.CallInstruction, b *ssa.Builtin) []Term {
 		return []Term{e.declare("cap", "Int")}
 	case "delete":
 		x.mapKeyHashable(args[1], ci.Pos())
+		x.writeTarget(x.val(args[0]), x.describe(args[0]), ci.Pos())
 		x.mapDelete(st, args[0].Type(), x.val(args[0]), x.val(args[1]))
 		return nil
 	case "append":
@@ -517,6 +537,13 @@ func (x *fx) appendB(ci ssa.CallInstruction, args []ssa.Value) Term {
 	res := e.define("app", "Slice", fmt.Sprintf("(ite %s (mkSlice (sref %s) (soff %s) %s (scap %s)) (mkSlice %s 0 %s %s))", inplace, s, s, newLen, s, fresh, newLen, ncap))
 	// new backing content of the target object
 	tgt := "(sref " + res + ")"
+	{
+		// appending nothing writes nothing
+		saved := x.curReach
+		x.curReach = and(saved, "(> "+n+" 0)")
+		x.writeTarget(tgt, x.describe(args[0])+"[append]", ci.Pos())
+		x.curReach = saved
+	}
 	off := "(soff " + res + ")"
 	oldArr := fmt.Sprintf("(select %s (sref %s))", h, s)
 	srcArr := fmt.Sprintf("(select %s (sref %s))", h, t)
